@@ -500,7 +500,7 @@ class Gen:
     ALL = {
         "attribute", "text", "elements", "wildcard", "attributes", "tokens", "nillable", "sequence", "wrapper", "union", "enum",
         "inheritance", "namespaces", "field_ns", "namegen", "frozen", "default", "bytes", "dates", "qname", "class_nillable", "recursion", "meta_name",
-        "list", "float", "decimal", "object", "slots", "fixed", "module_ns",
+        "list", "float", "decimal", "object", "slots", "fixed", "module_ns", "multi_class_choice",
     }
 
     def __init__(self, rng, salt, features=None, max_classes=4, max_fields=5):
@@ -750,7 +750,7 @@ class Gen:
     def compound_field(self, m, fname, later):
         rng = self.rng
         f = Field(fname, "Elements", [], rng.choice(["list", "list", "opt"]))
-        pool = [("prim", "int"), ("prim", "str"), ("prim", "bool")] + [("class", n) for n in later[:3]]
+        pool = [("prim", "int"), ("prim", "str"), ("prim", "bool")] + [("class", n) for n in later[: 3 if "multi_class_choice" in self.features else 1]]
         if "float" in self.features:
             pool.append(("prim", "float"))
         rng.shuffle(pool)
@@ -960,7 +960,8 @@ def gen_leaf(rng, m: Model, t: T, loaded, ns_pool, union_safe=False, allow_unqua
 
 
 class InstGen:
-    def __init__(self, rng, loaded: Loaded, max_depth=3, default_ns=False, hostile_text=False):
+    def __init__(self, rng, loaded: Loaded, max_depth=3, default_ns=False, hostile_text=False, json_mode=False):
+        self.json_mode = json_mode
         self.rng = rng
         self.L = loaded
         self.m = loaded.model
@@ -1022,7 +1023,7 @@ class InstGen:
         that carries the element's own qualified name (the generic form of that very element)."""
         rng = self.rng
         r = rng.random()
-        if r < 0.6:
+        if r < 0.6 and not self.json_mode:
             t = T("prim", rng.choice(["str", "int", "bool", "float", "Decimal", "XmlDate", "XmlDuration"]))
             v = gen_leaf(rng, self.m, t, self.L, self.ns_pool, union_safe=True)
             if isinstance(v, str):
